@@ -126,14 +126,14 @@ class SubPackets(collections_abc.MutableMapping, Field):
             return bytearray(self._hashed_raw)
 
         _bytes = bytearray()
-        _bytes += self.int_to_bytes(sum(len(sp) for sp in self._hashed_sp.values()), 2)
+        _bytes += self.int_to_fixed(sum(len(sp) for sp in self._hashed_sp.values()), 2)
         for hsp in self._hashed_sp.values():
             _bytes += hsp.__bytearray__()
         return _bytes
 
     def __unhashbytearray__(self):
         _bytes = bytearray()
-        _bytes += self.int_to_bytes(sum(len(sp) for sp in self._unhashed_sp.values()), 2)
+        _bytes += self.int_to_fixed(sum(len(sp) for sp in self._unhashed_sp.values()), 2)
         for uhsp in self._unhashed_sp.values():
             _bytes += uhsp.__bytearray__()
         return _bytes
